@@ -18,7 +18,7 @@ Open Scope list_scope.
 Theorem C15_expand_total : forall (r : fenv) pol f,
   match expand r pol f with
   | Ok _ => True
-  | Err (EMissing _ | EUnclosed _ | ECycle _) => True
+  | Err (EMissing _ | EUnclosed _ | ECycle _ | ETooDeep _) => True
   | _ => False
   end.
 Proof. exact expand_total. Qed.
@@ -27,7 +27,7 @@ Print Assumptions C15_expand_total.
 Theorem C15_expand_eval_total : forall EV (r : fenv) pol f, ev_real EV ->
   match expand_eval EV r pol f with
   | Ok _ => True
-  | Err (EMissing _ | EUnclosed _ | ECycle _ | EExpr _) => True
+  | Err (EMissing _ | EUnclosed _ | ECycle _ | ETooDeep _ | EExpr _) => True
   | _ => False
   end.
 Proof. exact expand_eval_total_real. Qed.
